@@ -126,7 +126,7 @@ func (r *Run) Mine(i int) bool {
 	}
 	return true
 }
-func (r *Run) IsWorker() bool  { return r.worker }
+func (r *Run) IsWorker() bool { return r.worker }
 func (r *Run) Shard() (int, int) {
 	return r.shard, r.nshards
 }
